@@ -2,6 +2,7 @@
 import json, os
 from . import common as C
 from . import worker as W
+from . import net as NET
 
 
 def worker_families(res, quick, thorough):
@@ -76,6 +77,170 @@ def codec(res):
                         "ERROR without a terminated or well-formed message decodes with the message '(no message)' (the code's documented behaviour, covered by a baseline test)"]
 
 
+def judge_net_trace(res, events, tag, module="Trace_Requests", sample_kind="req"):
+    """Writes the recorded exchanges, lets TLC judge them, files deviations."""
+    tdir = os.path.join(C.WORK, "traces")
+    os.makedirs(tdir, exist_ok=True)
+    tpath = os.path.join(tdir, "%s-%d.trace.ndjson" % (tag, os.getpid()))
+    NET.write_trace(tpath, events)
+    devs, nev, _ = W.judge(tpath, module=module, cfg=module + ".cfg")
+    recs = W.deviation_records(devs, tpath, None, tag)
+    nreq = sum(1 for e in events if e.get("e") == sample_kind)
+    res.traces += nreq
+    res.events += nev
+    res.legs.append({"family": tag, "exchanges": nreq, "events": nev, "deviations": len(devs)})
+    for e in events:
+        if e.get("e") == sample_kind and len(res.samples) < 4 and len(json.dumps(e)) < 1500:
+            res.samples.append({"family": tag, "exchange": e})
+            break
+    W.file_records(res, recs)
+    if not devs:
+        os.remove(tpath)
+    return devs
+
+
+SERVER_CONFIGS = [
+    # (shared dir, single port, read-only, overwrite)
+    dict(shared=True, single=False, ro=False, ow=False),
+    dict(shared=False, single=False, ro=False, ow=True),
+    dict(shared=False, single=True, ro=False, ow=False),
+    dict(shared=True, single=True, ro=True, ow=False),
+]
+
+
+def record_requests(vectors, make_requests, tag, configs, only=None, patient=False):
+    """For every server configuration: start the real tftpd in a fresh sandbox and send the
+    request(s) derived from every vector, one exchange each.  `only`: set of sids to run."""
+    import shutil
+    events = []
+    sid = 0
+    for ci, cfg in enumerate(configs):
+        todo = []
+        for v in vectors:
+            for req in make_requests(v):
+                sid += 1
+                if only is None or sid in only:
+                    todo.append((sid, req))
+        if not todo:
+            continue
+        sb = NET.Sandbox(os.path.join(C.WORK, "sbx", "%s-%d-%d" % (tag, os.getpid(), ci), "base"), cfg["shared"])
+        srv = NET.Server(sb, single=cfg["single"], ro=cfg["ro"], ow=cfg["ow"], clean=cfg.get("clean", True))
+        try:
+            events.append(srv.cfg_event())
+            for sid_, req in todo:
+                events.append(NET.exchange(srv, req, sid_, patient=patient))
+                if not srv.alive():
+                    events.append({"e": "dead", "sid": sid_, "status": srv.exit_status()})
+                    break
+        finally:
+            srv.stop()
+            shutil.rmtree(os.path.dirname(sb.base), ignore_errors=True)
+    return events
+
+
+def run_requests(res, vectors, make_requests, tag, configs):
+    """record -> judge; every deviation is re-run once in isolation with generous deadlines and
+    only counts if it persists (real time enters only one-sidedly, DESIGN.md section 9)."""
+    C.build_bins()
+    if isinstance(vectors, str):
+        vectors = [json.loads(l) for l in open(vectors)]
+    events = record_requests(vectors, make_requests, tag, configs)
+    probe = C.Result(res.prop, res.tier)
+    devs = judge_net_trace(probe, events, tag)
+    if devs:
+        bad = set()
+        lines = [e for e in events]
+        seen_labels = {}
+        for (ln, label) in devs:
+            ev = lines[ln - 1]
+            # a systematic defect persists on any sample of its occurrences: re-run at most 8 per label
+            if "sid" in ev and seen_labels.get(label, 0) < 8:
+                seen_labels[label] = seen_labels.get(label, 0) + 1
+                bad.add(ev["sid"])
+        events2 = record_requests(vectors, make_requests, tag + "-retry", configs, only=bad, patient=True)
+        res.legs.append({"family": tag, "first_pass_deviations": len(devs), "retried": len(bad)})
+        nreq = sum(1 for e in events if e.get("e") == "req")
+        res.traces += nreq
+        res.events += len(events)
+        return judge_net_trace(res, events2, tag + "-retry")
+    res.traces += probe.traces
+    res.events += probe.events
+    res.legs += probe.legs
+    res.samples += probe.samples[:2]
+    return devs
+
+
+def name_requests(v):
+    name = bytes(v["name"])
+    return [NET.rq(1, name), NET.rq(2, name)]
+
+
+def c03(res):
+    q = res.tier == "quick"
+    fam = "MC_Requests_NamesQuick" if q else "MC_Requests_NamesFull"
+    meta, spath = W.generate(fam, module="MC_Requests")
+    res.states += meta["states"]
+    res.transitions += meta["transitions"]
+    run_requests(res, spath, name_requests, fam, SERVER_CONFIGS[:3] if q else SERVER_CONFIGS)
+    res.extra["exhaustive"] = True
+    res.assumptions += ["no symbolic links inside the served trees", "one request per fresh client endpoint; silence is re-confirmed once with a 1 s deadline"]
+
+
+ALL_CONFIGS = [dict(shared=sh, single=si, ro=ro, ow=ow, clean=cl)
+               for sh in (True, False) for si in (False, True) for ro in (False, True) for ow in (False, True)
+               for cl in (True, False)]
+POLICY_NAMES = [b"zz", b"b", b"s", b"a/a", b"a/new", b"a", b"nodir/x", b"../b", b"/b", b"\\a\\b"]
+POLICY_OPTS = [(), (("blksize", 1024),), (("timeout", 0),), (("tsize", 0), ("windowsize", 2))]
+
+
+def policy_requests(v):
+    return [NET.rq(v["op"], bytes(v["name"]), [tuple(o) for o in v["opts"]])]
+
+
+def c06(res):
+    """The decision table of Requests.tla (a TLA+ function of flags x kind x target state x options)
+    is evaluated by TLC on every recorded exchange with the real process."""
+    q = res.tier == "quick"
+    vectors = [{"op": op, "name": list(n), "opts": [list(o) for o in os_]} for n in POLICY_NAMES for op in (1, 2)
+               for os_ in POLICY_OPTS]
+    configs = [c for c in ALL_CONFIGS if c["clean"]][::2] + [ALL_CONFIGS[1]] if q else ALL_CONFIGS
+    if not q:
+        # order effects: every ordered pair of rows for two representative configurations
+        pairs = []
+        base = vectors[::3]
+        for x in base:
+            for y in base:
+                pairs += [x, y]
+        run_requests(res, pairs, policy_requests, "policy-pairs", [ALL_CONFIGS[0], ALL_CONFIGS[13]])
+    run_requests(res, vectors, policy_requests, "policy-table", configs)
+    W.model_check(res, "MC_Requests_NamesQuick", module="MC_Requests")
+    res.assumptions += ["each exchange uses a fresh client endpoint and the sandbox is restored after every change, so rows are independent up to lingering worker threads"]
+
+
+def opts_requests_for(sizes):
+    def f(v):
+        opts = [(o["o"], "".join(str(d) for d in o["v"])) for o in v["opts"]]
+        return [NET.rq(1, b"b", opts), NET.rq(1, b"a/a", opts), NET.rq(2, b"new", opts)]
+    return f
+
+
+def c09_first_reply(res):
+    q = res.tier == "quick"
+    fams = ["MC_Requests_Opts1", "MC_Requests_OptsQuick"] if q else ["MC_Requests_Opts1", "MC_Requests_OptsFull"]
+    for fam in fams:
+        meta, spath = W.generate(fam, module="MC_Requests")
+        res.states += meta["states"]
+        res.transitions += meta["transitions"]
+        vectors = [json.loads(l) for l in open(spath)]
+
+        def reqs(v, q=q):
+            opts = [(o["o"], "".join(str(d) for d in o["v"])) for o in v["opts"]]
+            out = [NET.rq(1, b"b", opts), NET.rq(2, b"new", opts)]
+            return out if q else out + [NET.rq(1, b"a/a", opts)]
+        run_requests(res, vectors, reqs, fam, [SERVER_CONFIGS[0], SERVER_CONFIGS[2]])
+    res.assumptions += ["first reply compared field by field with Negotiate (Options.tla); silence confirmed by a sentinel exchange with the single-threaded listener"]
+
+
 def c17(res):
     fams = ["MC_Cli_STokQuick", "MC_Cli_SItemQuick", "MC_Cli_CTokQuick", "MC_Cli_CItemQuick"] if res.tier == "quick" \
         else ["MC_Cli_STokFull", "MC_Cli_SItemFull", "MC_Cli_CTokFull", "MC_Cli_CItemFull"]
@@ -95,7 +260,7 @@ def c18(res):
                         "fill() after end of file yields further empty pieces (recorded behaviour; the property constrains the bytes handed out)"]
 
 
-CHECKS = {"C17": c17, "C10": codec, "C11": codec, "C18": c18, "C01": c01, "C02": c02, "C04": c04, "C07": c07, "C08": c08, "C13": c13, "C15": c15, "C16": c16}
+CHECKS = {"C03": c03, "C06": c06, "C09": c09_first_reply, "C17": c17, "C10": codec, "C11": codec, "C18": c18, "C01": c01, "C02": c02, "C04": c04, "C07": c07, "C08": c08, "C13": c13, "C15": c15, "C16": c16}
 
 
 QUICK_FAMILIES = [
